@@ -48,7 +48,7 @@ Definition spell (t : token) (s : str) : Prop :=
   | TDate y m d =>
       exists a b c e f g h i, s = [a; b; c; e; 45; f; g; 45; h; i] /\ digits_ok [a; b; c; e; f; g; h; i]
                               /\ digits_val [a; b; c; e] = y /\ digits_val [f; g] = m /\ digits_val [h; i] = d
-  | TStr dq b => s = (if dq then 34 else 39) :: b ++ [if dq then 34 else 39]
+  | TStr b => exists q, (q = 34 \/ q = 39) /\ s = q :: b ++ [q] /\ forallb (fun c => negb (c =? q)) b = true
   | TTable n => s = 35 :: n
   | TPlaceS => exists c, s = [37; c] /\ lower c = 115
   | TPlaceN n =>
@@ -58,15 +58,15 @@ Definition spell (t : token) (s : str) : Prop :=
   end.
 
 (* how a spelling of the token starts *)
-(* a letter or '_' whose lower-case form is [lc]; a digit; the character [c] *)
-Inductive fclass := FAlpha (lc : Z) | FDigit | FChar (c : Z).
+(* a letter or '_' whose lower-case form is [lc]; a digit; one of the two quotes; the character [c] *)
+Inductive fclass := FAlpha (lc : Z) | FDigit | FQuote | FChar (c : Z).
 Definition first_class (t : token) : fclass :=
   match t with
   | TKw k => FAlpha (lower (hd 0 (kw_spelling k)))
   | TId n => FAlpha (hd 0 n)
   | TInt _ | TDate _ _ _ => FDigit
   | TDec lead _ _ => if lead then FDigit else FChar 46
-  | TStr dq _ => FChar (if dq then 34 else 39)
+  | TStr _ => FQuote
   | TTable _ => FChar 35
   | TPlaceS | TPlaceN _ | TPercent => FChar 37
   | TLP => FChar 40 | TRP => FChar 41 | TLB => FChar 91 | TRB => FChar 93 | TComma => FChar 44
@@ -78,7 +78,8 @@ Definition first_class (t : token) : fclass :=
 (* character [c] directly after a spelling of [t] would be read as part of it (or change it) *)
 Definition clash_char (t : token) (c : Z) : bool :=
   match t with
-  | TKw _ | TId _ | TTable _ | TPlaceS | TPlaceN _ | TDec _ _ _ | TDate _ _ _ => is_word c
+  | TKw _ | TId _ | TTable _ | TPlaceS | TPlaceN _ => is_word c
+  | TDec _ _ _ => is_digit c                           (* 1.5 then 3 *)
   | TInt _ => is_word c || (c =? 45) || (c =? 46)     (* 2020-10-10, 1. *)
   | TDot => is_digit c                                 (* .5 *)
   | TLt | TGt => c =? 61                               (* <= >= *)
@@ -89,14 +90,15 @@ Definition clash_char (t : token) (c : Z) : bool :=
 Definition clash (t : token) (f : fclass) : bool :=
   match f with
   | FAlpha lc => match t with
-                 | TKw _ | TId _ | TTable _ | TPlaceS | TPlaceN _ | TDec _ _ _ | TDate _ _ _ | TInt _ => true
+                 | TKw _ | TId _ | TTable _ | TPlaceS | TPlaceN _ | TInt _ => true
                  | TPercent => lc =? 115                      (* %s *)
                  | _ => false
                  end
   | FDigit => match t with
-              | TKw _ | TId _ | TTable _ | TPlaceS | TPlaceN _ | TDec _ _ _ | TDate _ _ _ | TInt _ | TDot => true
+              | TKw _ | TId _ | TTable _ | TPlaceS | TPlaceN _ | TDec _ _ _ | TInt _ | TDot => true
               | _ => false
               end
+  | FQuote => false
   | FChar c => clash_char t c
   end.
 
